@@ -1186,6 +1186,7 @@ class C16(SolverSuite):
         if len(ks) > cap:
             ks = sorted(rng.sample(ks, cap))
         clock = G.gen_clock(rng)
+        plain_listeners = all(l.get("kind") == "recording" for l in spec.get("listeners") or [])
         for k in ks:
             for exc in FAULT_KINDS:
                 for when in ("before", "after"):
@@ -1199,9 +1200,10 @@ class C16(SolverSuite):
                         # the caller simply tries again: after a transient failure the search carries on; if the objective is
                         # still broken, the second Solve fails on its very first evaluation and must come back just the same
                         ops.append({"a": "S0", "op": "solve"})
-                    yield G.base_plan(self.prop, run_seed, {"S0": spec}, ops, clock=clock,
-                                      faults=[{"a": "S0", "at_eval": k, "exc": exc, "when": when, "persistent": persistent,
-                                               "noargs": rng.random() < 0.3}])
+                    ft = {"a": "S0", "at_eval": k, "exc": exc, "when": when, "persistent": persistent, "noargs": rng.random() < 0.3}
+                    if plain_listeners and rng.random() < 0.15:
+                        ft["strict_warnings"] = True      # the failure is met in a process that turns warnings into errors
+                    yield G.base_plan(self.prop, run_seed, {"S0": spec}, ops, clock=clock, faults=[ft])
 
     def cases_refined_then_fault(self, rng, tier, run_seed):
         """Solve with refinement; the budget is raised and the search goes on; the objective then fails: the result may not
